@@ -118,7 +118,7 @@ func (r *run) doPod(p keys.PodIn, op string) {
 	r.emit(p.Line(), real)
 	if kind, has := p.Kind(); has {
 		r.emit("atp "+keys.Enc(kind), keys.RealATP(kind))
-		r.rep.Hit("pod.kind." + kindClass(kind))
+		r.rep.Hit("pod.kind." + keys.KindClass(kind))
 	} else {
 		r.rep.Hit("pod.kind.none")
 	}
@@ -191,21 +191,6 @@ func unenc(s string) string {
 		}
 	}
 	return b.String()
-}
-
-func kindClass(k string) string {
-	switch k {
-	case "StatefulSet", "ReplicaSet", "NULL", "":
-		return k
-	}
-	if strings.Contains(k, "_") {
-		return "with-underscore"
-	}
-	switch strings.ToLower(k) {
-	case "statefulset", "statefulsets", "replicaset", "deployment", "sts", "dp", "null", "pool":
-		return "table-alias"
-	}
-	return "custom"
 }
 
 func (r *run) doKey(s string) {
@@ -295,8 +280,8 @@ func (r *run) doKind(kind string) {
 			"not the prefix the key was built with", kind, kind, unenc(strings.TrimPrefix(tp, "=")), unenc(strings.TrimPrefix(at, "=")),
 			unenc(strings.TrimPrefix(at, "=")), unenc(strings.TrimPrefix(back, "="))), []string{op})
 	}
-	r.rep.Hit("kind." + kindClass(kind))
-	r.end(c, kindClass(kind) == "custom")
+	r.rep.Hit("kind." + keys.KindClass(kind))
+	r.end(c, keys.KindClass(kind) != "table-alias" && keys.KindClass(kind) != "StatefulSet" && keys.KindClass(kind) != "ReplicaSet")
 }
 
 // oracle ("size ≥ 1 always", page in [0, 99999]): for every string.
@@ -688,6 +673,22 @@ func (r *run) generate() {
 			nips = i + 1
 		}
 		r.doWorld(randomWorld(r, nips, rng.Intn(nips+1), allSizes, 0), true)
+	}
+	// the kind zoo over HTTP (both tiers): one record per zoo kind, with and without a pool, every entry posted back
+	// verbatim / with one-field variants / in multi-entry requests
+	for part := 0; part < 2; part++ {
+		spec := keys.WorldSpec{NIPs: len(keys.KindZoo) + 3, Sizes: []string{""}, Pages: 0, Batch: 3}
+		for i, k := range keys.KindZoo {
+			p := keys.PodIn{NS: "ns" + strconv.Itoa(i%3), Name: "w" + strconv.Itoa(i) + "-0", Owners: [][]string{{k, "w" + strconv.Itoa(i)}}}
+			if (i+part)%3 == 0 {
+				p.Pool = "p" + strconv.Itoa(i%2)
+			}
+			spec.Recs = append(spec.Recs, keys.RecSpec{Pod: p, Shape: "pod", IPIdx: i, Policy: uint16(i % 3), Live: part == 1 && i%11 == 0})
+		}
+		r.doWorld(spec, true)
+	}
+	for _, k := range keys.KindZoo {
+		r.doKind(k)
 	}
 	// larger worlds: populations of every kind
 	for i := 0; i < e.N(10, 600); i++ {
